@@ -108,11 +108,28 @@ func (c *FnCtx) evalCall(st *State, call *ast.CallExpr) Val {
 	var recv *Val
 	var recvT types.Type
 	if recvExpr != nil {
-		rv := c.evalExpr(st, recvExpr)
+		var rv Val
 		recvT = c.typeOf(recvExpr)
+		boxedRecv := false
+		if id, ok := unparen(recvExpr).(*ast.Ident); ok {
+			if o := c.info.ObjectOf(id); o != nil && c.boxed[o] {
+				if _, wantPtr := sig.Recv().Type().Underlying().(*types.Pointer); wantPtr {
+					if pv, ok := st.env[o]; ok && pv.K == KPtr {
+						rv = pv
+						recvT = types.NewPointer(recvT)
+						boxedRecv = true
+					}
+				}
+			}
+		}
+		if !boxedRecv {
+			rv = c.evalExpr(st, recvExpr)
+		}
 		sel := c.info.Selections[unparen(call.Fun).(*ast.SelectorExpr)]
 		// follow embedded-field path and implicit address/deref to reach the method's receiver
-		rv, recvT = c.adjustRecv(st, rv, recvT, sel, sig)
+		if !boxedRecv {
+			rv, recvT = c.adjustRecv(st, rv, recvT, sel, sig)
+		}
 		recv = &rv
 	}
 	args := c.evalArgs(st, call, sig)
@@ -310,6 +327,7 @@ func (c *FnCtx) inlineBody(st *State, key string, sig *types.Signature, body *as
 			st.env[r] = c.w.zero(r.Type())
 		}
 	}
+	c.findBoxed(body, info)
 	end := c.execBlock(st, body.List)
 	var outs []*State
 	if end != nil {
@@ -530,6 +548,54 @@ func (c *FnCtx) callByContract(st *State, fs *FuncSpec, sig *types.Signature, re
 			continue
 		}
 		c.assume(st, post.boolOf(e.Expr))
+	}
+	// case contracts of the same function: requires ==> ensures
+	if !strings.Contains(key, "@") {
+		var cases []string
+		for k := range c.eng.contracts.Funcs {
+			if strings.HasPrefix(k, key+"@") {
+				cases = append(cases, k)
+			}
+		}
+		sort.Strings(cases)
+		for _, k := range cases {
+			cs := c.eng.contracts.Funcs[k]
+			if cs.Trusted {
+				c.trusted["contract of "+k+" is assumed, not proved: "+cs.TrustWhy] = true
+			} else {
+				c.deps[k] = true
+			}
+			cv := map[string]Val{}
+			if recv != nil && cs.Recv != "" {
+				cv[cs.Recv] = *recv
+			}
+			for i, n := range cs.Params {
+				if i < len(args) {
+					cv[n] = args[i]
+				}
+			}
+			cpre := &SpecScope{c: c, cur: old, vars: cv}
+			cond := "true"
+			for _, r := range cs.Requires {
+				cond = sAnd(cond, cpre.boolOf(r.Expr))
+			}
+			cpost := &SpecScope{c: c, cur: st, old: old, vars: map[string]Val{}, oldVars: cv}
+			for k2, v := range cv {
+				cpost.vars[k2] = v
+			}
+			for i, n := range cs.Results {
+				if i < len(results) {
+					cpost.vars[n] = results[i]
+				}
+			}
+			concl := "true"
+			for _, e := range cs.Ensures {
+				if !e.Local {
+					concl = sAnd(concl, cpost.boolOf(e.Expr))
+				}
+			}
+			c.assume(st, sImp(cond, concl))
+		}
 	}
 	switch nres {
 	case 0:
